@@ -59,6 +59,9 @@ def run(ctx):
     rule5(ctx, prog, flows, effects)
     rule6(ctx, prog, flows)
     rule7(ctx, prog, flows)
+    from graphrules import no_edge_identity_collections
+
+    no_edge_identity_collections(ctx, prog, "R-C02-9", ("graph::",), "on a multi-edge graph not all parallel edges are retrievable through this query, and it disagrees with get_all_edges()")
     from graphrules import adjacency_name_maps_only_keyed
 
     adjacency_name_maps_only_keyed(ctx, prog, flows, "R-C02-8", ("graph::query", "graph::degree", "graph::convert", "graph::subgraph", "graph::density", "graph::ensure", "graph::matrix"),
